@@ -760,4 +760,77 @@ theorem nativeFrames_shift {o1 o2 : Oracle} {d : Int} (h : OracleShift o1 o2 d) 
   | abort => rfl
   | hang => rfl
 
+/-- The TOC helpers ignore the two frame-count-code bits. -/
+theorem toc_helpers_congr (t1 t2 : Nat) (fs : Nat) (h : t1 / 4 = t2 / 4) :
+    getMode t1 = getMode t2 ∧ getBandwidth t1 = getBandwidth t2 ∧ samplesPerFrame t1 fs = samplesPerFrame t2 fs ∧
+    getNbChannels t1 = getNbChannels t2 := by
+  have e1 : t1 / 128 = t2 / 128 := by omega
+  have e2 : t1 / 32 = t2 / 32 := by omega
+  have e3 : t1 / 8 = t2 / 8 := by omega
+  have e4 : t1 / 16 = t2 / 16 := by omega
+  unfold getMode getBandwidth samplesPerFrame getNbChannels
+  rw [e1, e2, e3, e4, h]
+  exact ⟨rfl, rfl, rfl, rfl⟩
+
+/-- Two-run simulation of `opus_decode_native`: two byte strings whose parses report the same frame sizes (and count)
+    and whose TOC bytes agree up to the frame-count code — e.g. a packet and its padded / unpadded / repacketised form —
+    decoded from the same state with the same arguments by DSP oracles that answer identically on frames shifted by
+    `d = payloadOffset₂ − payloadOffset₁`: same return value, same final decoder state and oracle-call counter, and the
+    same inner-call / access log up to the shift of the logged packet offsets.  (`packet_offset` itself differs.) -/
+theorem decodeNative_shift {o1 o2 : Oracle} (bs1 bs2 : Bytes) (sd1 sd2 : Bool) (p1 p2 : Parsed)
+    (hp1 : parseImpl sd1 bs1 = .ok p1) (hp2 : parseImpl sd2 bs2 = .ok p2) (hsizes : p1.sizes = p2.sizes)
+    (hcount : p1.count = p2.count) (htoc : bs1.headD 0 / 4 = bs2.headD 0 / 4)
+    (h : OracleShift o1 o2 ((p2.payloadOffset : Int) - (p1.payloadOffset : Int)))
+    (pcm : Ptr) (frame_size fec : Int) (sc : Bool) (r : Run) :
+    (decodeNative o2 (some bs2) bs2.length pcm frame_size fec sd2 sc
+        (shiftRun ((p2.payloadOffset : Int) - (p1.payloadOffset : Int)) r)).ret =
+      (decodeNative o1 (some bs1) bs1.length pcm frame_size fec sd1 sc r).ret ∧
+    (decodeNative o2 (some bs2) bs2.length pcm frame_size fec sd2 sc
+        (shiftRun ((p2.payloadOffset : Int) - (p1.payloadOffset : Int)) r)).run =
+      shiftRun ((p2.payloadOffset : Int) - (p1.payloadOffset : Int)) (decodeNative o1 (some bs1) bs1.length pcm frame_size fec sd1 sc r).run := by
+  generalize hd : (p2.payloadOffset : Int) - (p1.payloadOffset : Int) = d at *
+  have hne : ∀ (bs : Bytes) (sd : Bool) (p : Parsed), parseImpl sd bs = .ok p → bs ≠ [] := by
+    intro bs sd p hh hnil; subst hnil; simp [parseImpl] at hh
+  have hl1 : ¬ ((bs1.length : Int) = 0 ∨ (some bs1).isNone = true) := by have := hne bs1 sd1 p1 hp1; simp [this]
+  have hl2 : ¬ ((bs2.length : Int) = 0 ∨ (some bs2).isNone = true) := by have := hne bs2 sd2 p2 hp2; simp [this]
+  obtain ⟨tm, tb, ts, tc⟩ := toc_helpers_congr (bs1.headD 0) (bs2.headD 0) r.st.Fs.toNat htoc
+  obtain ⟨r2, hr2⟩ : ∃ r2, r2 = shiftRun d r := ⟨_, rfl⟩
+  have hst : r2.st = r.st := by rw [hr2]; rfl
+  rw [← hr2]
+  unfold decodeNative
+  simp only [hst, Option.getD_some, Int.toNat_natCast, List.take_length, hp1, hp2]
+  by_cases c0 : ¬ validateOk r.st = true
+  · simp only [if_pos c0, NativeOut.mk']; exact ⟨trivial, hr2⟩
+  simp only [if_neg c0]
+  by_cases c1 : fec < 0 ∨ fec > 1
+  · simp only [if_pos c1, NativeOut.mk']; exact ⟨trivial, hr2⟩
+  simp only [if_neg c1]
+  by_cases c2 : fec ≠ 0 ∧ cmod frame_size (r.st.Fs / 400) ≠ 0
+  · have d1 : (fec ≠ 0 ∨ (bs1.length : Int) = 0 ∨ (some bs1).isNone = true) ∧ cmod frame_size (r.st.Fs / 400) ≠ 0 := ⟨Or.inl c2.1, c2.2⟩
+    have d2 : (fec ≠ 0 ∨ (bs2.length : Int) = 0 ∨ (some bs2).isNone = true) ∧ cmod frame_size (r.st.Fs / 400) ≠ 0 := ⟨Or.inl c2.1, c2.2⟩
+    simp only [if_pos d1, if_pos d2, NativeOut.mk']; exact ⟨trivial, hr2⟩
+  have d1 : ¬ ((fec ≠ 0 ∨ (bs1.length : Int) = 0 ∨ (some bs1).isNone = true) ∧ cmod frame_size (r.st.Fs / 400) ≠ 0) := by
+    rintro ⟨hh | hh, hm⟩
+    · exact c2 ⟨hh, hm⟩
+    · exact hl1 hh
+  have d2 : ¬ ((fec ≠ 0 ∨ (bs2.length : Int) = 0 ∨ (some bs2).isNone = true) ∧ cmod frame_size (r.st.Fs / 400) ≠ 0) := by
+    rintro ⟨hh | hh, hm⟩
+    · exact c2 ⟨hh, hm⟩
+    · exact hl2 hh
+  have n1 : ¬ (bs1.length : Int) < 0 := by omega
+  have n2 : ¬ (bs2.length : Int) < 0 := by omega
+  simp only [if_neg d1, if_neg d2, if_neg hl1, if_neg hl2, if_neg n1, if_neg n2]
+  have hoff : (p2.payloadOffset : Int) = (p1.payloadOffset : Int) + d := by omega
+  by_cases c3 : fec ≠ 0
+  · simp only [if_pos c3, NativeOut.mk']
+    rw [← tm, ← tb, ← ts, ← tc, ← hsizes, hoff, hr2, nativeFec_shift h]
+    exact ⟨rfl, rfl⟩
+  · simp only [if_neg c3]
+    rw [← ts, ← hcount]
+    by_cases c4 : (p1.count : Int) * (samplesPerFrame (bs1.headD 0) r.st.Fs.toNat : Int) > frame_size
+    · simp only [if_pos c4, NativeOut.mk']; exact ⟨trivial, hr2⟩
+    · simp only [if_neg c4, NativeOut.mk']
+      rw [← tm, ← tb, ← tc, ← hsizes, hoff, hr2, nativeFrames_shift h]
+      exact ⟨rfl, rfl⟩
+
 end Opus.DecSkel
